@@ -282,14 +282,18 @@ func reqError(pid int, err *string, created time.Time) Req {
 	}
 	return Req{requests.DKGProposalConfirmationErrorRequest{ParticipantId: pid, Error: e, CreatedAt: created}, fmt.Sprintf("error %d %d %d", pid, et, tsec(created))}
 }
-func reqSigError(pid int, err *string, created time.Time) Req {
+func reqSigError(pid int, err *string, created time.Time, batch string) Req {
 	var e *requests.FSMError
 	et := -1
 	if err != nil {
 		e = &requests.FSMError{ErrorMsg: *err}
 		et = tok.Tok(*err)
 	}
-	return Req{requests.SignatureProposalConfirmationErrorRequest{ParticipantId: pid, Error: e, CreatedAt: created}, fmt.Sprintf("sigerror %d %d %d", pid, et, tsec(created))}
+	bt := 0 // the report names no batch (as written by older versions)
+	if batch != "" {
+		bt = tok.Tok(batch)
+	}
+	return Req{requests.SignatureProposalConfirmationErrorRequest{ParticipantId: pid, Error: e, CreatedAt: created, BatchID: batch}, fmt.Sprintf("sigerror %d %d %d %d", pid, et, tsec(created), bt)}
 }
 func reqStart(batch string, pid int, created time.Time, tasks []requests.SigningTask) Req {
 	var sb strings.Builder
